@@ -18,16 +18,19 @@ def EntInv (m : Bool) (E : Entry) : Prop :=
   ∧ (E.err = false → E.failing = 0)
   -- failed entry: no value, no holder, never destructed; in the map exactly until `lnFailDel`
   ∧ (E.err = true → E.value = none ∧ E.holders = 0 ∧ E.del2 = 0 ∧ E.del3 = 0 ∧ E.destructed = 0
-        ∧ E.ctor = 0 ∧ E.failing = (if m then 1 else 0))
+        ∧ E.ctor = 0 ∧ E.failing = (if m then 1 else 0) ∧ E.skipped = 0)
   -- live entry (in the map): not being destructed, refs ≥ 1
-  ∧ (E.err = false → m = true → E.del2 = 0 ∧ E.del3 = 0 ∧ E.destructed = 0 ∧ 1 ≤ E.refs)
+  ∧ (E.err = false → m = true → E.del2 = 0 ∧ E.del3 = 0 ∧ E.destructed = 0 ∧ 1 ≤ E.refs ∧ E.skipped = 0)
   -- released entry (removed at refs = 0): nobody counts on it; exactly one Delete call owns its destruction
-  ∧ (E.err = false → m = false → E.refs = 0 ∧ E.del2 + E.del3 + E.destructed = 1)
+  ∧ (E.err = false → m = false → E.refs = 0 ∧ E.del2 + E.del3 + E.destructed + E.skipped = 1)
   ∧ (E.wlocked = true → E.value = none ∧ E.holders = 0)
   ∧ (E.wlocked = false → E.err = false → E.value.isSome = true)
   ∧ (if E.viaCtor then E.ctorRuns + E.ctor = 1 else E.ctorRuns = 0 ∧ E.ctor = 0 ∧ E.failing = 0)
   -- increments of failed acquisitions that already returned exist only on entries no longer in the map
   ∧ (m = true → E.deadRefs = 0)
+  -- a value that is not a Destructor is never destructed; only such values are skipped; constructors make Destructors
+  ∧ (E.plain = true → E.del3 = 0 ∧ E.destructed = 0 ∧ E.viaCtor = false)
+  ∧ (E.plain = false → E.skipped = 0)
 
 structure Inv (s : G) : Prop where
   ent : ∀ e, e < s.next → EntInv (inPool s e) (s.ent e)
@@ -44,9 +47,9 @@ macro "ent_tac" : tactic =>
     revert m E
     intro m E
     obtain ⟨key, refs, value, err, wlocked, viaCtor, ctor, failing, waiters, lsWaiters,
-      holders, deadRefs, del2, del3, destructed, ctorRuns⟩ := E
+      holders, deadRefs, del2, del3, destructed, ctorRuns, plain, skipped⟩ := E
     simp only [EntInv]
-    cases err <;> cases wlocked <;> cases viaCtor <;> cases m <;> simp <;> intros <;>
+    cases err <;> cases wlocked <;> cases viaCtor <;> cases m <;> cases plain <;> simp <;> intros <;>
       first | omega | (subst_vars; simp_all; done) | (subst_vars; simp_all; omega)))
 
 theorem ent_holder_mapped (h : EntInv m E) (hh : 0 < E.holders) :
@@ -74,6 +77,9 @@ theorem ent_newCtor (k : Nat) : EntInv true (newCtorEntry k) := by
 
 theorem ent_newStored (k v : Nat) : EntInv true (newStoredEntry k v) := by
   simp [EntInv, newStoredEntry]
+
+theorem ent_newPlain (k v : Nat) : EntInv true (newPlainEntry k v) := by
+  simp [EntInv, newPlainEntry]
 
 theorem ent_ctorOk (v : Nat) (h : EntInv m E) (hh : 0 < E.ctor) :
     EntInv m { E with value := some v, wlocked := false, ctor := E.ctor - 1,
@@ -112,8 +118,12 @@ theorem ent_del2_facts (h : EntInv m E) (hh : 0 < E.del2) (hw : E.wlocked = fals
     m = false ∧ E.err = false ∧ E.value.isSome = true ∧ E.refs = 0 ∧ E.destructed = 0 := by
   ent_tac
 
-theorem ent_del2 (h : EntInv m E) (hh : 0 < E.del2) :
+theorem ent_del2 (h : EntInv m E) (hh : 0 < E.del2) (hp : E.plain = false) :
     EntInv m { E with del2 := E.del2 - 1, del3 := E.del3 + 1 } := by
+  ent_tac
+
+theorem ent_del2_plain (h : EntInv m E) (hh : 0 < E.del2) (hp : E.plain = true) :
+    EntInv m { E with del2 := E.del2 - 1, skipped := E.skipped + 1 } := by
   ent_tac
 
 theorem ent_del3_facts (h : EntInv m E) (hh : 0 < E.del3) :
@@ -134,13 +144,14 @@ theorem ent_holder_facts (h : EntInv m E) (hh : 0 < E.holders) :
       ∧ E.wlocked = false ∧ E.ctor = 0 ∧ (E.viaCtor = true → E.ctorRuns = 1) := by
   ent_tac
 
-theorem ent_once (h : EntInv m E) : E.destructed ≤ 1 ∧ E.ctorRuns ≤ 1 ∧ E.del2 + E.del3 + E.destructed ≤ 1 := by
+theorem ent_once (h : EntInv m E) :
+    E.destructed ≤ 1 ∧ E.ctorRuns ≤ 1 ∧ E.del2 + E.del3 + E.destructed + E.skipped ≤ 1 := by
   ent_tac
 
 /-- the destructor runs (or is about to run) only on an entry nobody counts on any more -/
-theorem ent_dying_facts (h : EntInv m E) (hh : 0 < E.del2 + E.del3 + E.destructed) :
+theorem ent_dying_facts (h : EntInv m E) (hh : 0 < E.del2 + E.del3 + E.destructed + E.skipped) :
     m = false ∧ E.err = false ∧ E.holders = 0 ∧ E.refs = 0 ∧ E.waiters = 0 ∧ E.lsWaiters = 0 ∧ E.ctor = 0
-      ∧ E.failing = 0 ∧ E.del2 + E.del3 + E.destructed = 1 := by
+      ∧ E.failing = 0 ∧ E.del2 + E.del3 + E.destructed + E.skipped = 1 := by
   ent_tac
 
 theorem ent_failed_facts (h : EntInv m E) (hh : E.err = true) :
@@ -153,7 +164,8 @@ theorem ent_mapped_refs (h : EntInv m E) (hm : m = true) :
   ent_tac
 
 theorem ent_released_facts (h : EntInv m E) (hm : m = false) (he : E.err = false) :
-    E.refs = 0 ∧ E.holders = 0 ∧ E.del2 + E.del3 + E.destructed = 1 ∧ E.value.isSome = true ∧ E.wlocked = false := by
+    E.refs = 0 ∧ E.holders = 0 ∧ E.del2 + E.del3 + E.destructed + E.skipped = 1 ∧ E.value.isSome = true
+      ∧ E.wlocked = false := by
   ent_tac
 
 theorem ent_refs_nonneg (h : EntInv m E) : 0 ≤ E.refs := by
@@ -168,7 +180,8 @@ def quietEntry (E : Entry) : Prop :=
   E.ctor = 0 ∧ E.failing = 0 ∧ E.waiters = 0 ∧ E.lsWaiters = 0 ∧ E.del2 = 0 ∧ E.del3 = 0
 
 theorem ent_closed_iff_unheld (h : EntInv m E) (hv : E.value.isSome = true) (hq : quietEntry E) :
-    (E.destructed = 1 ↔ E.holders = 0) ∧ (E.holders = 0 → m = false) := by
+    (E.destructed + E.skipped = 1 ↔ E.holders = 0) ∧ (E.holders = 0 → m = false)
+      ∧ (E.plain = false → (E.destructed = 1 ↔ E.holders = 0)) := by
   unfold quietEntry at hq
   ent_tac
 
